@@ -1,5 +1,6 @@
 import LeptosModel.Model.Wire
 import LeptosModel.Model.Reactive
+import LeptosModel.Model.ReactiveSel
 /-!
 Line-protocol driver shared by C01 / C09 / C02 (op grammar: harness/hx-c01/src/lib.rs).
 The three properties observe different things of the same run:
@@ -243,20 +244,6 @@ def immOk (p : Prog) (keys : List Nat) (b : Expr) : Bool :=
     | some (.sig _) => true
     | _ => false
   b.noWrite && b.noUntracked && !(b.directReads.any keys.contains) && shallow && pairwiseDisjoint anc
-
-/-- `selc`: 1 if `x = j` or `x = j + 1` -/
-def selcFlag (x : Expr) (j : Nat) : Expr :=
-  .add (.ite (.add x (.lit (-(Int.ofNat j)))) (.lit 0) (.lit 1))
-       (.ite (.add x (.lit (-(Int.ofNat j) - 1))) (.lit 0) (.lit 1))
-
-def selcStep (e : Expr) (t p j : Nat) : Expr :=
-  .ite (.add e (.mulc (-1) (.rd false p)))
-    (.ite (.add (selcFlag e j) (selcFlag (.rd false p) j)) (.wr t (selcFlag e j)) (.lit 0))
-    (.lit 0)
-
-/-- body of the render effect a `selc` selector desugars to (`p` = hidden node holding the previous value) -/
-def selcBody (e : Expr) (first k : Nat) : Expr :=
-  (List.range k).foldr (fun j acc => .seq (selcStep e (first + j) (first + k) j) acc) (.wr (first + k) e)
 
 def insertSorted (x : Nat) : List Nat → List Nat
   | [] => [x]
